@@ -81,7 +81,10 @@ InContract(e) ==
 Expected(e) ==
   CASE e.a \in {"ReadSheet", "GetMut"}           -> PostRead(sheets, e.i)
     [] e.a \in {"ReadByName", "GetByNameMut"}    -> PostRead(sheets, IndexOf(sheets, e.name))
-    [] e.a \in {"ReadAll", "GetCollMut", "WbInsertRows", "WbRemoveRows"} -> PostReadAll(sheets)
+    [] e.a \in {"ReadAll", "GetCollMut"}         -> PostReadAll(sheets)
+    (* a workbook-level insertion/removal of rows need not materialise anything, as long as every sheet shows
+       what the eager workbook shows whenever it is looked at or saved (the twin is the reference) *)
+    [] e.a \in {"WbInsertRows", "WbRemoveRows"}  -> sheets
     [] e.a = "Edit"        -> PostEdit(sheets, IF e.via = "name" THEN IndexOf(sheets, e.name) ELSE e.i,
                                        [t |-> e.t, k |-> e.k, v |-> e.v])
     [] e.a = "NewSheet"    -> PostNew(sheets, e.name)
@@ -99,16 +102,13 @@ ObsBad0(e, want) ==       \* the set of reasons why the observed sheets do not f
     (IF e.obs[p].loaded /\ e.obs[p].v # e.tobs[p].v
      THEN {<<"lazy differs from eager", p, {a \in Aspects : e.obs[p].v.base[a] # e.tobs[p].v.base[a]},
              e.obs[p].v.marks, e.tobs[p].v.marks>>} ELSE {}) \cup
-    (IF e.obs[p].loaded /\ ~MarksOK(e.obs[p].v, want[p]) THEN {<<"marks", p, e.obs[p].v.marks>>} ELSE {}) \cup
-    (IF e.obs[p].loaded /\ want[p].o # 0 /\ DiffOrig(want[p], e.obs[p].v.base) # {}
-     THEN {<<"differs from the eager load of the file", p, DiffOrig(want[p], e.obs[p].v.base)>>} ELSE {})
+    (IF e.obs[p].loaded /\ ~MarksOK(e.obs[p].v, want[p]) THEN {<<"marks", p, e.obs[p].v.marks>>} ELSE {})
     : p \in DOMAIN want}
 ObsBad(e, want) == IF e.outcome # "ok" THEN {<<"outcome", e.outcome>>} ELSE ObsBad0(e, want)
 (* the twin must follow the specification, else the history is not one this check can judge *)
 TwinBad(e, want) ==
   \/ e.tw_outcome # "ok" \/ Len(e.tobs) # Len(want)
   \/ \E p \in DOMAIN want : \/ ~e.tobs[p].loaded \/ e.tobs[p].name # want[p].name \/ ~MarksOK(e.tobs[p].v, want[p])
-                            \/ (want[p].o # 0 /\ DiffOrig(want[p], e.tobs[p].v.base) # {})
 Follow(e, want) == IF Len(e.obs) = Len(want) THEN [p \in DOMAIN want |-> [want[p] EXCEPT !.loaded = e.obs[p].loaded]]
                    ELSE want
 
@@ -162,8 +162,12 @@ SheetReloadBad(S, P, e, p) ==
               copy (they live in workbook.xml and are serialised from the model for every sheet), so they are
               compared with the eager save like every aspect of a materialised sheet *)
            bad == IF S[p].loaded THEN {a \in SavedAspects \ drop : x.v.base[a] # e.tw.sheets[p].v.base[a]}
-                  ELSE {a \in (Aspects \ {"names"}) \ drop : x.v.base[a] # orig[S[p].o].base[a]} \cup
+                  ELSE IF DiffOrig(S[p], e.tobs[p].v.base) = {}
+                  THEN {a \in (Aspects \ {"names"}) \ drop : x.v.base[a] # orig[S[p].o].base[a]} \cup
                        {a \in {"names"} : x.v.base[a] # e.tw.sheets[p].v.base[a]}
+                  (* a workbook-level edit changed what the eager workbook shows on this sheet: a raw copy of the
+                     original is not what the file must hold; the eager save is *)
+                  ELSE {a \in SavedAspects \ drop : x.v.base[a] # e.tw.sheets[p].v.base[a]}
        IN (IF bad # {} THEN {<<IF S[p].loaded THEN "materialised sheet differs from the eager save" ELSE
                                "raw sheet differs from the original", p, bad>>} ELSE {}) \cup
           (IF ToSet(x.v.marks) # MarksPred(S, P, p) \/ Len(x.v.marks) # Cardinality(MarksPred(S, P, p))
